@@ -260,7 +260,7 @@ func c08GenFrame(r *rand.Rand, m *c08Model, sysCtr *uint32) peer.Frame {
 }
 
 func c08Worker(env *fw.Env) {
-	total := int64(env.Pick(480, 20000))
+	total := int64(env.Pick(1600, 24000))
 	for i := int64(0); i < total; i++ {
 		if !env.Mine(i) || !env.Want(i) {
 			continue
